@@ -38,6 +38,7 @@ class Injector:
         self.times: list[float] = []      # virtual time at the end of each step
         self.err_steps: list[int] = []    # suspensions that ended with a scripted transport error
         self.injected_at: tuple[str, ...] | None = None
+        self.scope = None             # when set: the cancellation is requested through this cancel scope, not task.cancel()
 
     def arm(self, task: asyncio.Task) -> None:
         self.target = task
@@ -54,7 +55,10 @@ class Injector:
         self.chains.append(chain)
         if self.step is not None and self.n == self.step:
             self.injected_at = chain
-            task.cancel()
+            if self.scope is not None:
+                self.scope.cancel()
+            else:
+                task.cancel()
 
 
 def coro_chain(coro) -> tuple[str, ...]:
